@@ -3,6 +3,7 @@ package main
 import (
 	"fmt"
 	"go/ast"
+	"go/token"
 	"go/types"
 	"strings"
 )
@@ -83,6 +84,11 @@ func c04R1R2(p *Prog, r *Report, id1, id2 string) {
 			case *ast.FuncLit:
 				return false
 			case *ast.ReturnStmt:
+				if !returnsStatements(fi) {
+					// a selector helper ((*JenID, *Type) without statements) hands one of its arguments
+					// back: its result is treated as source-derived at the call site, not as a conversion result
+					return true
+				}
 				for _, res := range x.Results {
 					if isJenIDPtr(info.TypeOf(res)) && t.mentions(res) && !t.isConverterCall(res) {
 						sinks = append(sinks, sink{fi, res, "returns the source expression " + short(exprString(res), 50) + " as conversion result"})
@@ -189,6 +195,18 @@ func c04R1R2(p *Prog, r *Report, id1, id2 string) {
 	r.OK("builder+generator/emitted assignment sites", "", fmt.Sprintf("%d emitted `=`/`:=`/`++` sites examined, %d write through the source", nAssignSites, len(writes)))
 }
 
+// returnsStatements: the function's results include []jen.Code — it is a conversion
+// step (Build/Assign shape), not a helper that merely selects among values.
+func returnsStatements(fi *FuncInfo) bool {
+	res := fi.Obj.Type().(*types.Signature).Results()
+	for i := 0; i < res.Len(); i++ {
+		if res.At(i).Type().String() == "[]"+jenPath+".Code" {
+			return true
+		}
+	}
+	return false
+}
+
 // structBuildShortcutFact: the `return nil, sourceID, nil` in Struct.Build is guarded by NumFields() == 0 on source and target.
 func structBuildShortcutFact(p *Prog, fi *FuncInfo, at ast.Node) string {
 	stack := stackTo(fi.Decl, at)
@@ -240,10 +258,25 @@ func containersFromMake(p *Prog, r *Report, id string, requireAlloc bool) {
 					list = ast.Unparen(def)
 				}
 			}
+			// the site is named after the innermost condition that holds at the return, in a
+			// normal form that does not depend on whether the code says `if c {A}; B` or `if !c {B}; A`
 			disc := "other"
 			for _, g := range guardsOf(stackTo(fi.Decl, ret), ret) {
-				if g.Cond != nil && !g.Neg {
-					disc = "if " + exprString(g.Cond)
+				if g.Cond == nil || g.Tag != nil {
+					continue
+				}
+				e, pos := ast.Unparen(g.Cond), !g.Neg
+				for {
+					u, ok := e.(*ast.UnaryExpr)
+					if !ok || u.Op != token.NOT {
+						break
+					}
+					e, pos = ast.Unparen(u.X), !pos
+				}
+				if pos {
+					disc = "if " + exprString(e)
+				} else {
+					disc = "if !" + exprString(e)
 				}
 			}
 			site := fmt.Sprintf("%s/success return (%s)", key, disc)
